@@ -221,7 +221,13 @@ static int hosts_calls, hosts_result = -1, tohostent_result = -1, localhost_call
 
 ares_status_t ares_hosts_search_host(ares_channel_t *channel, ares_bool_t use_env, const char *host, const ares_hosts_entry_t **entry)
 {
+#ifdef HOSTS /* outcome concrete per job: 0 entry converted, 1 / 5 entry found but conversion ENOMEM / ENOTFOUND,
+                2 / 3 / 4 search says ENOTFOUND / EFILE / ENOMEM (a symbolic status would put the whole completion with loopback
+                addresses under a symbolic guard: every pointer written there stops being a constant) */
+  int r = HOSTS == 2 ? 1 : HOSTS == 3 ? 2 : HOSTS == 4 ? 3 : 0;
+#else
   int r = (int)vp_range(0, 3);
+#endif
   VP_ASSERT(channel == &ch && use_env == ARES_FALSE && host == g_name, "the hosts file is searched for the name asked");
   hosts_calls++;
   hosts_result = r;
@@ -241,7 +247,11 @@ ares_status_t ares_hosts_search_host(ares_channel_t *channel, ares_bool_t use_en
 
 ares_status_t ares_hosts_entry_to_hostent(const ares_hosts_entry_t *entry, int family, struct hostent **hostent)
 {
+#ifdef HOSTS
+  int r = HOSTS == 0 ? 0 : HOSTS == 1 ? 1 : 2;
+#else
   int r = (int)vp_range(0, 2);
+#endif
   VP_ASSERT(entry == (const ares_hosts_entry_t *)(const void *)&the_entry && family == g_family, "the entry found is converted for the family asked");
   tohostent_result = r;
   *hostent         = NULL;
@@ -255,7 +265,11 @@ ares_status_t ares_hosts_entry_to_hostent(const ares_hosts_entry_t *entry, int f
 ares_status_t ares_addrinfo_localhost(const char *name, unsigned short port, const struct ares_addrinfo_hints *hints,
                                       struct ares_addrinfo *ai)
 {
+#ifdef LH /* outcome concrete per job (the node count decides allocation sizes downstream) */
+  int r = LH;
+#else
   int r = (int)vp_range(0, 2);
+#endif
   VP_ASSERT(name == g_name && port == 0 && hints->ai_family == g_family && ai != NULL, "loopback addresses for the name and family asked");
   localhost_calls++;
   localhost_result = r;
@@ -339,8 +353,18 @@ void harness(void)
     ga->arg      = &user_cb_count;
     ga->channel  = &ch;
     /* two call sites: status and result pointer are constants for symex on the success path */
-    if (st == ARES_SUCCESS) ares_gethostbyname_callback(ga, ARES_SUCCESS, t, build_ai());
-    else ares_gethostbyname_callback(ga, st, t, NULL);
+    if (st == ARES_SUCCESS) {
+      ares_gethostbyname_callback(ga, ARES_SUCCESS, t, build_ai());
+    } else {
+      if (st == ARES_EDESTRUCTION) {
+        /* the channel is going away: the completion must not touch it any more (a dangling pointer makes any access a
+           pointer-check failure) */
+        ares_channel_t *dead = malloc(sizeof(*dead));
+        free(dead);
+        ga->channel = dead;
+      }
+      ares_gethostbyname_callback(ga, st, t, NULL);
+    }
     VP_ASSERT(user_cb_count == 1 && gai_calls == 0, "a completion is reported exactly once, nothing new is started");
     VP_ASSERT(user_timeouts == t, "timeouts are passed through");
     if (st == ARES_SUCCESS) {
@@ -355,10 +379,19 @@ void harness(void)
 #else
   {
     struct hostent  *host  = (struct hostent *)(void *)&the_entry; /* garbage the call must overwrite */
+#  ifdef NULLARGS
     struct hostent **hostp = vp_bool() ? &host : NULL;
     const char      *name  = vp_bool() ? g_name : NULL;
+#  else
+    struct hostent **hostp = &host;
+    const char      *name  = g_name;
+#  endif
     int              rv;
+#  ifdef FAMREQ /* family concrete per job (address length = allocation size) */
+    g_family = FAMREQ == 4 ? AF_INET : FAMREQ == 6 ? AF_INET6 : AF_UNSPEC;
+#  else
     g_family = vp_bool() ? AF_INET : vp_bool() ? AF_INET6 : AF_UNSPEC;
+#  endif
 #  ifdef ALLOCFAIL
     vp_alloc_fail_at = ALLOCFAIL;
 #  endif
@@ -375,10 +408,16 @@ void harness(void)
         VP_WITNESS("found");
         if (localhost_calls && hosts_result == 0 && tohostent_result == 0) VP_WITNESS("hosts-file entry completed with loopback addresses");
       } else {
-#  ifndef KF_ghbn_file_localhost_oom_hostent
+        /* KF region of ghbn_file_localhost_oom_hostent: a localhost name found in the hosts file, converted, and the
+           completion with loopback addresses failed */
+#  ifdef KFONLY_ghbn_file_localhost_oom_hostent
+        VP_ASSUME(localhost_calls == 1 && hosts_result == 0 && tohostent_result == 0);
+#  endif
+#  ifdef KF_ghbn_file_localhost_oom_hostent
+        if (!(localhost_calls == 1 && hosts_result == 0 && tohostent_result == 0))
+#  endif
         VP_ASSERT(host == NULL, "FINDING ghbn_file_localhost_oom_hostent: a failing ares_gethostbyname_file() leaves *host == NULL (documented); "
                                 "the hosts-file entry is not left behind when completing it with loopback addresses runs out of memory");
-#  endif
       }
       if (NAMEKIND == 2) VP_ASSERT(rv == ARES_ENOTFOUND && hosts_calls == 0, ".onion names are never looked up (RFC 7686)");
       if (NAMEKIND == 0) VP_ASSERT(localhost_calls == 0, "loopback addresses only for localhost names");
